@@ -3,7 +3,7 @@
 (* Code -> specification for the query engine: each ndjson line is one     *)
 (* recorded execution of rbql.query behind recording iterator / writer     *)
 (* objects:                                                                *)
-(*  {tid, outcome: "ok"|"error", events: [{e, t, end, ok}..], streaming,   *)
+(*  {tid, outcome: "ok"|"error", errcls, events: [{e, t, end, ok}..], streaming,   *)
 (*   pulllimit, buffered, joined, alias, src_changed}                      *)
 (* The monitors of Monitors.tla are folded over the events (fold style,    *)
 (* one TLC state per execution).  Every event record carries all four      *)
@@ -30,10 +30,11 @@ Reasons(t) ==
         prompt        |-> ~p.pullAfterRefusal,
         pull_bound    |-> (t.streaming => p.a <= t.pulllimit),
         b_before_a    |-> ~p.aBeforeBEnd /\ ~p.bAfterEnd,
+        parse_before_write |-> (t.errcls = "parsing" => m.writes = 0),
         no_alias      |-> ~t.alias,
         sources       |-> ~t.src_changed]
 
-Accept(t) == LET r == Reasons(t) IN r.protocol /\ r.finish_iff_ok /\ r.prompt /\ r.pull_bound /\ r.b_before_a /\ r.no_alias /\ r.sources
+Accept(t) == LET r == Reasons(t) IN r.protocol /\ r.finish_iff_ok /\ r.parse_before_write /\ r.prompt /\ r.pull_bound /\ r.b_before_a /\ r.no_alias /\ r.sources
 
 Judge == IF i <= Len(Traces)
          THEN Accept(Traces[i]) \/ PrintT(ToJson([reject |-> Traces[i].tid, reasons |-> Reasons(Traces[i])]))
